@@ -1,3 +1,4 @@
+pub mod auth;
 pub mod c05;
 pub mod c09;
 pub mod c11;
